@@ -51,7 +51,7 @@ async fn run_ops(ops: &[(u8, u8, u8)], tag: &str, burst: usize) -> Result<(), St
         for i in 0..burst {
             other.write(vec![254u8, i as u8], vec![n as u8]).await;
         }
-        match op % 3 {
+        match op % 4 {
             0 => {
                 let value = vec![*v, n as u8];
                 store.write(key.clone(), value.clone()).await;
@@ -75,6 +75,16 @@ async fn run_ops(ops: &[(u8, u8, u8)], tag: &str, burst: usize) -> Result<(), St
                 if got != model.get(&key).cloned() {
                     return Err(format!("op {}: read({:?}) = {:?}, latest write is {:?}", n, key, got, model.get(&key)));
                 }
+            }
+            3 => {
+                // a waiter that gives up: its notify-read is registered with the store task, then the waiting task is dropped
+                // (what PayloadWaiter / the synchronizers do on Cleanup).  Later writes must still serve every other waiter.
+                let mut s2 = store.clone();
+                let k2 = key.clone();
+                let h = tokio::spawn(async move { let _ = s2.notify_read(k2).await; });
+                barrier(&mut store).await;
+                h.abort();
+                let _ = h.await;
             }
             _ => {
                 let mut s2 = store.clone();
@@ -104,11 +114,14 @@ async fn run_ops(ops: &[(u8, u8, u8)], tag: &str, burst: usize) -> Result<(), St
 async fn replay_c16_op_sequences() {
     let seed: u64 = std::env::var("VERIF_SEED").ok().and_then(|s| s.parse().ok()).unwrap_or(0);
     let mut x = seed.wrapping_mul(6364136223846793005).wrapping_add(1442695040888963407);
-    // (op, key, value): op%3 = 0 write, 1 read, 2 notify-read; keys from a tiny set so that they overlap
+    // (op, key, value): op%4 = 0 write, 1 read, 2 notify-read, 3 notify-read whose waiter gives up; keys from a tiny set so that they overlap
     let mut sequences: Vec<Vec<(u8, u8, u8)>> = vec![
         vec![(2, 1, 0), (0, 1, 7), (2, 1, 0), (1, 1, 0)],
         vec![(2, 1, 0), (2, 1, 0), (2, 2, 0), (0, 1, 3), (0, 2, 4), (2, 1, 0), (0, 1, 5), (1, 1, 0), (2, 1, 0)],
         vec![(0, 1, 1), (0, 1, 2), (1, 1, 0), (2, 1, 0)],
+        // a waiter that gave up sits in front of live ones
+        vec![(3, 1, 0), (2, 1, 0), (2, 1, 0), (0, 1, 9), (1, 1, 0)],
+        vec![(2, 2, 0), (3, 2, 0), (2, 2, 0), (3, 2, 0), (0, 2, 5), (2, 2, 0)],
         // keys that extend each other: a write to one must not be visible under another
         vec![(0, 6, 1), (1, 7, 0), (1, 8, 0), (0, 7, 2), (1, 6, 0), (1, 8, 0), (0, 3, 3), (1, 4, 0), (1, 5, 0), (0, 5, 4), (1, 3, 0), (1, 6, 0)],
         vec![(2, 7, 0), (0, 6, 1), (2, 3, 0), (0, 5, 2), (0, 7, 3), (0, 3, 4), (1, 7, 0), (1, 3, 0)],
@@ -128,11 +141,11 @@ async fn replay_c16_op_sequences() {
         // every third sequence (and the three hand-written ones a second time) runs behind a backlog
         let burst = if i % 3 == 2 { 130 } else { 0 };
         let mut r = run_ops(seq, &i.to_string(), burst).await;
-        if r.is_ok() && i < 5 {
+        if r.is_ok() && i < 7 {
             r = run_ops(seq, &format!("{}b", i), 130).await;
         }
         if let Err(e) = r {
-            failures.push(format!("backlog {} ops {:?}: {}", burst.max(if i < 5 { 130 } else { 0 }), seq.iter().map(|(o, k, _)| (["write", "read", "notify"][(*o % 3) as usize], key_of(*k).len(), *k)).collect::<Vec<_>>(), e));
+            failures.push(format!("backlog {} ops {:?}: {}", burst.max(if i < 7 { 130 } else { 0 }), seq.iter().map(|(o, k, _)| (["write", "read", "notify", "notify-then-give-up"][(*o % 4) as usize], key_of(*k).len(), *k)).collect::<Vec<_>>(), e));
         }
     }
     for f in failures.iter().take(4) { println!("FAILING-INPUT property=C16 {}", f); }
